@@ -7,6 +7,9 @@
   `scope` (`scopeDeclare` on an empty chain / non-scope cell), `args`, `bind` and `index` (`bindList`
   reading past the end of the live source list) are dead code.  On success the final state is again
   well-formed, extends the initial one (`Ext`, which implies `HeapGrows`) and the results are OK in it.
+  `WF` also says that every object cell is strictly sorted by key (`Sorted`, C12), and the state carried by an
+  error or a `lock` crash is `WF` as well, so the last section derives the C12 invariant "all object cells of
+  all reachable states are sorted" (`keepsWF`, `evalProg_state_sorted`, …).
 
   The induction on the fuel is over `SafeAll n` (NoCrashDefs.lean); the steps are in NoCrashExpr.lean,
   NoCrashStmt.lean and NoCrashBind.lean.
@@ -105,5 +108,125 @@ theorem bindList_no_index_crash (n : Nat) (σ : State) (sc : List Addr) (names :
   intro h
   have := ((safeAll n).bindList σ sc names items collect lhsLoc b decl i lhsLen hw hs hlen hl).crash_eq h
   simp at this
+
+/-! ### C12: every object cell of every reachable state is strictly sorted by key
+
+`WF σ` contains "every object cell of `σ` is `Sorted`" (`WF.sorted`), and `Safe` says that the state carried by
+ANY result (`ok`, `err`, `lock` crash) is `WF`.  So from `safeAll` the invariant holds in every state the
+evaluator can reach: the hypothesis `WF σ` of every function is discharged by the conclusion of the call that
+produced `σ`, starting from `wf_init`. -/
+
+/-- every state a result carries is well-formed (in particular all its object cells are `Sorted`) -/
+def StateWF {α : Type} (r : Res α) : Prop := ∀ σ', r.state? = some σ' → WF σ'
+
+theorem Safe.stateWF {α : Type} {P : State → α → Prop} {σ : State} {r : Res α} (h : Safe P σ r) : StateWF r :=
+  fun _ hr => h.state_wf hr
+
+theorem StateWF.sorted {α : Type} {r : Res α} (h : StateWF r) {σ' : State} (hr : r.state? = some σ') {a : Addr} {m : ObjMap}
+    (hm : σ'.getObj a = some m) : Sorted m := (h σ' hr).sorted hm
+
+/-- at every fuel, each of the 23 evaluator functions, started in a well-formed state (hence: all object cells
+    sorted) with the arguments the evaluator itself passes, ends — whether in success, in a reported error or in
+    a `lock` crash — in a well-formed state (hence: all object cells sorted) -/
+structure KeepsWF (n : Nat) : Prop where
+  evalExpr : ∀ σ sc e, WF σ → ScOK σ sc → StateWF (evalExpr n σ sc e)
+  evalOptIndex : ∀ σ sc e, WF σ → ScOK σ sc → StateWF (evalOptIndex n σ sc e)
+  evalListItems : ∀ σ sc items acc, WF σ → ScOK σ sc → ListOK σ acc → StateWF (evalListItems n σ sc items acc)
+  evalProps : ∀ σ sc l props acc, WF σ → ScOK σ sc → ObjOK σ acc → Sorted acc → StateWF (evalProps n σ sc l props acc)
+  evalCall : ∀ σ sc f args loc, WF σ → ScOK σ sc → StateWF (evalCall n σ sc f args loc)
+  evalToStr : ∀ σ sc d e, WF σ → ScOK σ sc → StateWF (evalToStr n σ sc d e)
+  evalToBool : ∀ σ sc d e, WF σ → ScOK σ sc → StateWF (evalToBool n σ sc d e)
+  evalToInt : ∀ σ sc d e, WF σ → ScOK σ sc → StateWF (evalToInt n σ sc d e)
+  evalToIndex : ∀ σ sc e, WF σ → ScOK σ sc → StateWF (evalToIndex n σ sc e)
+  interpolate : ∀ σ sc s slots loc last acc, WF σ → ScOK σ sc → StateWF (interpolate n σ sc s slots loc last acc)
+  evalBlock : ∀ σ sc bs stmts, WF σ → ScTags σ sc → BindsOK σ bs → StateWF (evalBlock n σ sc bs stmts)
+  declareAll : ∀ σ sc bs, WF σ → ScOK σ sc → BindsOK σ bs → StateWF (declareAll n σ sc bs)
+  evalStmts : ∀ σ sc stmts, WF σ → ScOK σ sc → StateWF (evalStmts n σ sc stmts)
+  evalStmt : ∀ σ sc st, WF σ → ScOK σ sc → StateWF (evalStmt n σ sc st)
+  evalIf : ∀ σ sc bs els, WF σ → ScOK σ sc → StateWF (evalIf n σ sc bs els)
+  evalWhile : ∀ σ sc c stmts, WF σ → ScOK σ sc → StateWF (evalWhile n σ sc c stmts)
+  evalFor : ∀ σ sc lhs pairs stmts, WF σ → ScOK σ sc → PairsOK σ pairs → StateWF (evalFor n σ sc lhs pairs stmts)
+  bindNext : ∀ σ sc names lhs rhs op decl, WF σ → ScOK σ sc → SValOK σ rhs →
+    StateWF (bindNext n σ sc names lhs rhs op decl)
+  bindProp : ∀ σ a name loc rhs op names vi, WF σ → σ.tagAt a = some .obj → SValOK σ rhs →
+    StateWF (bindProp n σ a name loc rhs op names vi)
+  bindRangeIndex : ∀ σ sc a start stop loc rhsItems names, WF σ → ScOK σ sc → σ.tagAt a = some .list → ListOK σ rhsItems →
+    StateWF (bindRangeIndex n σ sc a start stop loc rhsItems names)
+  bindList : ∀ σ sc names items collect lhsLoc b decl i lhsLen, WF σ → ScOK σ sc → i + items.length = lhsLen →
+    LenOK σ b collect lhsLen → StateWF (bindList n σ sc names items collect lhsLoc b decl i lhsLen)
+  bindObject : ∀ σ sc names props b decl i total remaining, WF σ → ScOK σ sc → σ.tagAt b = some .obj →
+    StateWF (bindObject n σ sc names props b decl i total remaining)
+  bindObjectProp : ∀ σ sc names lhs b pname ploc decl, WF σ → ScOK σ sc → σ.tagAt b = some .obj →
+    StateWF (bindObjectProp n σ sc names lhs b pname ploc decl)
+
+theorem keepsWF (n : Nat) : KeepsWF n where
+  evalExpr := fun _ _ _ hw hs => ((safeAll n).evalExpr _ _ _ hw hs).stateWF
+  evalOptIndex := fun _ _ _ hw hs => ((safeAll n).evalOptIndex _ _ _ hw hs).stateWF
+  evalListItems := fun _ _ _ _ hw hs ha => ((safeAll n).evalListItems _ _ _ _ hw hs ha).stateWF
+  evalProps := fun _ _ _ _ _ hw hs ha hso => ((safeAll n).evalProps _ _ _ _ _ hw hs ha hso).stateWF
+  evalCall := fun _ _ _ _ _ hw hs => ((safeAll n).evalCall _ _ _ _ _ hw hs).stateWF
+  evalToStr := fun _ _ _ _ hw hs => ((safeAll n).evalToStr _ _ _ _ hw hs).stateWF
+  evalToBool := fun _ _ _ _ hw hs => ((safeAll n).evalToBool _ _ _ _ hw hs).stateWF
+  evalToInt := fun _ _ _ _ hw hs => ((safeAll n).evalToInt _ _ _ _ hw hs).stateWF
+  evalToIndex := fun _ _ _ hw hs => ((safeAll n).evalToIndex _ _ _ hw hs).stateWF
+  interpolate := fun _ _ _ _ _ _ _ hw hs => ((safeAll n).interpolate _ _ _ _ _ _ _ hw hs).stateWF
+  evalBlock := fun _ _ _ _ hw hs hb => ((safeAll n).evalBlock _ _ _ _ hw hs hb).stateWF
+  declareAll := fun _ _ _ hw hs hb => ((safeAll n).declareAll _ _ _ hw hs hb).stateWF
+  evalStmts := fun _ _ _ hw hs => ((safeAll n).evalStmts _ _ _ hw hs).stateWF
+  evalStmt := fun _ _ _ hw hs => ((safeAll n).evalStmt _ _ _ hw hs).stateWF
+  evalIf := fun _ _ _ _ hw hs => ((safeAll n).evalIf _ _ _ _ hw hs).stateWF
+  evalWhile := fun _ _ _ _ hw hs => ((safeAll n).evalWhile _ _ _ _ hw hs).stateWF
+  evalFor := fun _ _ _ _ _ hw hs hp => ((safeAll n).evalFor _ _ _ _ _ hw hs hp).stateWF
+  bindNext := fun _ _ _ _ _ _ _ hw hs hr => ((safeAll n).bindNext _ _ _ _ _ _ _ hw hs hr).stateWF
+  bindProp := fun _ _ _ _ _ _ _ _ hw ha hr => ((safeAll n).bindProp _ _ _ _ _ _ _ _ hw ha hr).stateWF
+  bindRangeIndex := fun _ _ _ _ _ _ _ _ hw hs ha hr => ((safeAll n).bindRangeIndex _ _ _ _ _ _ _ _ hw hs ha hr).stateWF
+  bindList := fun _ _ _ _ _ _ _ _ _ _ hw hs hl hk => ((safeAll n).bindList _ _ _ _ _ _ _ _ _ _ hw hs hl hk).stateWF
+  bindObject := fun _ _ _ _ _ _ _ _ _ hw hs hb => ((safeAll n).bindObject _ _ _ _ _ _ _ _ _ hw hs hb).stateWF
+  bindObjectProp := fun _ _ _ _ _ _ _ _ hw hs hb => ((safeAll n).bindObjectProp _ _ _ _ _ _ _ _ hw hs hb).stateWF
+
+/-- whatever a program ends in (success, reported error, `lock` crash), it ends in a well-formed state -/
+theorem evalProg_state_wf (n : Nat) (stmts : List Stmt) : StateWF (evalProg n stmts) := (evalProg_safe n stmts).stateWF
+
+/-- a program that ends normally leaves every object cell strictly sorted by key -/
+theorem evalProg_ok_sorted (n : Nat) (stmts : List Stmt) (σ : State) (h : evalProg n stmts = .ok () σ) :
+    ∀ a m, σ.getObj a = some m → Sorted m :=
+  fun _ _ hm => (evalProg_ok_wf n stmts σ h).sorted hm
+
+/-- a program that ends in a reported error leaves a well-formed heap -/
+theorem evalProg_err_wf (n : Nat) (stmts : List Stmt) (e : Err) (σ : State) (h : evalProg n stmts = .err e σ) : WF σ :=
+  ((evalProg_safe n stmts).err_inv h).1
+
+/-- … in which every object cell is strictly sorted by key -/
+theorem evalProg_err_sorted (n : Nat) (stmts : List Stmt) (e : Err) (σ : State) (h : evalProg n stmts = .err e σ) :
+    ∀ a m, σ.getObj a = some m → Sorted m :=
+  fun _ _ hm => (evalProg_err_wf n stmts e σ h).sorted hm
+
+/-- all outcomes at once -/
+theorem evalProg_state_sorted (n : Nat) (stmts : List Stmt) (σ : State) (h : (evalProg n stmts).state? = some σ) :
+    ∀ a m, σ.getObj a = some m → Sorted m :=
+  fun _ _ hm => (evalProg_state_wf n stmts).sorted h hm
+
+/-- `evalExpr` keeps all object cells sorted: from a well-formed state, whatever the outcome -/
+theorem evalExpr_keeps_sorted (n : Nat) (σ : State) (sc : List Addr) (e : Expr) (hw : WF σ) (hs : ScOK σ sc) (σ' : State)
+    (h : (evalExpr n σ sc e).state? = some σ') : WF σ' ∧ ∀ a m, σ'.getObj a = some m → Sorted m :=
+  ⟨(keepsWF n).evalExpr σ sc e hw hs σ' h, fun _ _ hm => ((keepsWF n).evalExpr σ sc e hw hs).sorted h hm⟩
+
+/-- `evalStmts` keeps all object cells sorted: from a well-formed state, whatever the outcome -/
+theorem evalStmts_keeps_sorted (n : Nat) (σ : State) (sc : List Addr) (stmts : List Stmt) (hw : WF σ) (hs : ScOK σ sc)
+    (σ' : State) (h : (evalStmts n σ sc stmts).state? = some σ') : WF σ' ∧ ∀ a m, σ'.getObj a = some m → Sorted m :=
+  ⟨(keepsWF n).evalStmts σ sc stmts hw hs σ' h, fun _ _ hm => ((keepsWF n).evalStmts σ sc stmts hw hs).sorted h hm⟩
+
+/-- the statement-by-statement form: the state between two statements of a sequence is well-formed, so the
+    invariant holds at every intermediate point of a run, not only at its end -/
+theorem evalStmt_keeps_sorted (n : Nat) (σ : State) (sc : List Addr) (st : Stmt) (hw : WF σ) (hs : ScOK σ sc)
+    (σ' : State) (h : (evalStmt n σ sc st).state? = some σ') : WF σ' ∧ ∀ a m, σ'.getObj a = some m → Sorted m :=
+  ⟨(keepsWF n).evalStmt σ sc st hw hs σ' h, fun _ _ hm => ((keepsWF n).evalStmt σ sc st hw hs).sorted h hm⟩
+
+/-- the object a literal evaluates to is a sorted cell of the new state -/
+theorem evalExpr_obj_sorted (n : Nat) (σ : State) (sc : List Addr) (e : Expr) (hw : WF σ) (hs : ScOK σ sc) (a : Addr)
+    (s : Option Val) (σ' : State) (h : evalExpr n σ sc e = .ok ⟨.obj a, s⟩ σ') : ∃ m, σ'.getObj a = some m ∧ Sorted m := by
+  obtain ⟨hw', _, hv⟩ := ((safeAll n).evalExpr σ sc e hw hs).ok_inv h
+  obtain ⟨m, hm⟩ := getObj_of_tag hv.1
+  exact ⟨m, hm, hw'.sorted hm⟩
 
 end Seed
